@@ -405,6 +405,9 @@ func sortSeries(ss []RSeries) {
 			if math.IsNaN(float64(p.V)) {
 				bits = 0x7ff8000000000000 // one key for every NaN, whatever its sign and payload
 			}
+			if float64(p.V) == 0 {
+				bits = 0 // +0 and -0 compare equal, so they sort alike
+			}
 			fmt.Fprintf(&sb, "%d:%016x,", p.T, bits)
 		}
 		return sb.String()
